@@ -77,6 +77,20 @@ let () =
       ["SqrtBigInt"; "SqrtBigRat"; "CubeRootBigInt"; "CubeRootBigRat"; "FromBigRat"])
     ["C01"; "C02"; "C03"; "C13"]
 
+(* Far<ctor> num den depth first far: the observation is that of <ctor> num den depth *)
+let () =
+  List.iter (fun prop ->
+    List.iter (fun op -> reg prop ("Far" ^ op) (fun ver args obs ->
+      match args with
+      | num :: den :: depth :: _ ->
+        let v, _ = root_handler op ver [num; den; depth] obs in
+        (match obs, v.model with
+         | ("PANIC" :: _), ["PANIC"] -> { v with model = obs }
+         | _ -> { v with tags = "far-jump" :: v.tags })
+      | _ -> { model = []; tags = []; spec = Some "malformed Far case"; known = None }))
+      ["Sqrt"; "SqrtRat"; "SqrtBigInt"; "SqrtBigRat"; "CubeRoot"; "CubeRootRat"; "CubeRootBigInt"; "CubeRootBigRat"; "FromBigRat"])
+    ["C01"; "C02"; "C03"; "C13"]
+
 (* Pair: two independent Numbers *)
 let split_obs obs =
   (* obs of one number: Z 0 -1 | N e k d1..dk ended | PANIC msg *)
